@@ -10,9 +10,11 @@ import sys
 
 ROOT = os.path.dirname(os.path.dirname(os.path.abspath(__file__)))
 for d in sorted(glob.glob('/tmp/seed-C*/m*') +
-                glob.glob('/tmp/seed2-C*/m*')):
-    pid = re.search(r'seed2?-(C\d+)', d).group(1)
-    k = ('w2' if '/seed2-' in d else '') + os.path.basename(d)
+                glob.glob('/tmp/seed2-C*/m*') +
+                glob.glob('/tmp/seed3-C*/m*')):
+    pid = re.search(r'seed[23]?-(C\d+)', d).group(1)
+    k = ('w2' if '/seed2-' in d else 'w3' if '/seed3-' in d else '') + \
+        os.path.basename(d)
     log = os.path.join(d, 'check_quick.log')
     if not os.path.exists(log) or not os.path.exists(
             os.path.join(d, 'patch.diff')):
